@@ -327,21 +327,79 @@ theorem TcpSock.abortAccept_view (s : TcpSock) : s.abortAccept.1.view = s.view :
   | none => rfl
   | some a => dsimp only; cases a.acceptOp <;> rfl
 
-theorem accClose_nf (n : NetSt) (now : Int) (name : String) :
-    ∃ n1, TFrame n n1 ∧ (n.accClose now name).1 = (n1.tcpClose now name).1 := by
+
+theorem abortAccept_some (s : TcpSock) (a : AccState) (ha : s.acc = some a) :
+    s.abortAccept.1 = { s with acc := some { a with acceptOp := none } } := by
+  unfold TcpSock.abortAccept
+  simp only [ha]
+  cases ho : a.acceptOp with
+  | none =>
+    simp only
+    cases s; cases a; simp_all
+  | some op => rfl
+
+/-- `check_accept_queue()` on a closed acceptor only empties its queue and aborts its accept:
+    the result is the same object with other `acc` contents -/
+theorem accCheckQueue_closed (m : NetSt) (now : Int) (name : String) (s0 : TcpSock)
+    (h : m.tcp? name = some s0) (hc : s0.isOpen = false) :
+    (m.accCheckQueue now name).1 = m ∨
+    ∃ a' : AccState, (m.accCheckQueue now name).1 = m.setTcp name { s0 with acc := some a' } := by
+  unfold NetSt.accCheckQueue
+  simp only [h]
+  cases ha : s0.acc with
+  | none => exact Or.inl rfl
+  | some a0 =>
+    right
+    simp only [hc, Bool.not_false, if_true]
+    rw [abortAccept_some _ { a0 with conns := [] } rfl]
+    simp only [tcp?_setTcp, if_true]
+    exact ⟨_, rfl⟩
+
+theorem CloseEff.then_frame {n m m' : NetSt} {name : String} (e : CloseEff n m name) (f : TFrame m m') :
+    CloseEff n m' name := by
+  refine ⟨fun x => ?_, ?_, ?_, ?_, ?_, ?_, ?_, fun g => ?_⟩
+  · rw [f.tv, e.tv]
+  · rw [f.reg, e.regT]
+  · rw [f.reg, e.regU]
+  · rw [f.reg, e.port]
+  · rw [f.cfg, e.cfg]
+  · rw [f.udps, e.udps]
+  · rw [f.fwds, e.flen]
+  · rw [f.fwdTarget, e.ft]
+
+/-- `acceptor::close(ec)`: forget the backlog limit and the pending accept (invisible to the
+    registry), `socket::close`, then `check_accept_queue()` on the closed acceptor (invisible) -/
+theorem accClose_eff (n : NetSt) (now : Int) (name : String) : CloseEff n (n.accClose now name).1 name := by
   unfold NetSt.accClose
   cases h : n.tcp? name with
-  | none => exact ⟨n, TFrame.refl n, by simp [NetSt.tcpClose, h]⟩
+  | none =>
+    have hv : n.tv name = none := by simp [NetSt.tv, h]
+    refine ⟨fun x => ?_, by simp [hv], rfl, rfl, rfl, rfl, rfl, fun g => by simp [hv]⟩
+    by_cases hx : x = name <;> simp [hx, hv]
   | some s =>
     dsimp only
-    refine ⟨_, TFrame.setTcp n name s _ h ?_, rfl⟩
-    rw [TcpSock.abortAccept_view]
-    cases s.acc <;> rfl
+    have hv1 : ((match s.acc with | some a => { s with acc := some { a with queueLimit := -1 } } | none => s : TcpSock).abortAccept.1).view = s.view := by
+      rw [TcpSock.abortAccept_view]; cases s.acc <;> rfl
+    have f1 := TFrame.setTcp n name s _ h hv1
+    have e1 := CloseEff.of_frame f1 (tcpClose_eff _ now name)
+    generalize ((n.setTcp name (match s.acc with | some a => { s with acc := some { a with queueLimit := -1 } } | none => s : TcpSock).abortAccept.1).tcpClose now name) = r at e1
+    obtain ⟨m, e2⟩ := r
+    dsimp only at e1 ⊢
+    -- the acceptor is closed now
+    have hcl : ∀ s', m.tcp? name = some s' → s'.isOpen = false := by
+      intro s' hs'
+      have := e1.tv name
+      simp only [NetSt.tv, hs', if_true, Option.map_some, h, TcpSock.view] at this
+      exact (Prod.mk.inj (Option.some.inj this)).1
+    have f2 : TFrame m (m.accCheckQueue now name).1 := by
+      cases hm : m.tcp? name with
+      | none => unfold NetSt.accCheckQueue; simp only [hm]; exact TFrame.refl m
+      | some s' =>
+        rcases accCheckQueue_closed m now name s' hm (hcl s' hm) with e | ⟨a', e⟩
+        · rw [e]; exact TFrame.refl m
+        · rw [e]; exact TFrame.setTcp m name s' _ hm rfl
+    exact e1.then_frame f2
 
-theorem accClose_eff (n : NetSt) (now : Int) (name : String) : CloseEff n (n.accClose now name).1 name := by
-  obtain ⟨n1, hf, he⟩ := accClose_nf n now name
-  rw [he]
-  exact CloseEff.of_frame hf (tcpClose_eff n1 now name)
 
 /-- the destructor: what `close` does, then the object is gone -/
 structure DestroyEff (n n' : NetSt) (name : String) : Prop where
